@@ -40,6 +40,11 @@ E1 (explicit-state exploration on the real objects)
     strings are singletons in CPython) and EVERY name handed to the library (append / set / del / t[k] / t.k /
     `in`, constructor parameters, column declarations, dict-row names, sort, rc[col], rc.col) is a freshly built
     equal string object (_fk), as names computed at run time are; the models compare with ==.
+  * Key names (round 7): the key NAME is a dimension.  7 further keyed-table BFS runs (same alphabet, dict model
+    and fixed point) use 2 keys that are names of ParameterTable / record attributes (keys, items, data, shape,
+    append, to_text, _keys, _data, _settings, _keyname, to_dataframe, _to_string, p, q) plus one ordinary key
+    (thorough: plus one 5-key run keys/items/data/shape/ka).  Only the attribute read-out t.<key> of such a name is
+    not demanded (statement silent); the unchanged library behaves like the dict model for everything else.
   * Guard for the de-duplication argument: ALL operation sequences up to a smaller depth are executed unpruned
     (with the single read operation "whole read-out").
 E2 (complete enumeration)
@@ -118,6 +123,21 @@ PT = dict(
 )
 # additional keyed-table BFS runs (thorough): fewer keys, two refused new keys pending at a time
 PT_EXTRA = dict(quick=[], thorough=[dict(keys=_names("abcd"), nrec=2, depth=7, useq=0, urec=3, upos=5, pending=2)])
+# key NAMES as a dimension (round 7): keyed-table BFS runs whose key alphabet consists of names that are also
+# attributes of the ParameterTable class / of its records (methods, dataclass fields, record fields) plus one
+# ordinary key.  noattr = keys for which the attribute read-out t.<key> is not demanded (the statement is silent on
+# which of the two meanings wins); everything else (t[k], in, keys(), len, position, iteration, items(), data(),
+# delete, overwrite, refused assignment) is judged against the same dict model.
+COLLIDE_PAIRS = [["keys", "items"], ["data", "shape"], ["append", "to_text"], ["_keys", "_data"],
+                 ["_settings", "_keyname"], ["to_dataframe", "_to_string"], ["p", "q"]]
+PT_COLLIDE = dict(
+    quick=[dict(keys=pair + ["ka"], noattr=list(pair), nrec=2, depth=6, useq=0, urec=3, upos=4, pending=1)
+           for pair in COLLIDE_PAIRS],
+    thorough=[dict(keys=pair + ["ka"], noattr=list(pair), nrec=2, depth=7, useq=0, urec=3, upos=4, pending=1)
+              for pair in COLLIDE_PAIRS]
+    + [dict(keys=["keys", "items", "data", "shape", "ka"], noattr=["keys", "items", "data", "shape"], nrec=2, depth=7,
+            useq=0, urec=3, upos=6, pending=1)],
+)
 ROWS = [[1, "b"], [2, "a"], [1, "a"], [3, "c"]]     # ties on both columns
 ROWS_T = [[1, "b"], [2, "a"], [1, "a"], [3, "cc"]]  # typed array mode: one string longer than one character
 ROWS_N = [[1, 2.5], [2, 1.5], [1, 1.5], [3, 0.0]]   # numeric rows for float64 array columns
@@ -262,7 +282,9 @@ def _pt_reads(keyed, cfg, fine):
     ops = []
     if keyed:
         for k in cfg["keys"]:
-            ops += [["read", "attr", k], ["read", "key", k], ["read", "in", k]]
+            if k not in cfg.get("noattr", ()):
+                ops.append(["read", "attr", k])
+            ops += [["read", "key", k], ["read", "in", k]]
         for i in range(len(cfg["keys"]) + 1):
             ops.append(["read", "pos", i])
         ops += [["read", "keys"]]
@@ -427,6 +449,8 @@ def _pt_expected(m, keyed, cfg):
             exp.append(("pos[%d]" % i, ["ok", recs[i]]))
         exp.append(("posend[%d]" % n, ["raises", "IndexError"]))
         for k in cfg["keys"]:
+            if k in cfg.get("noattr", ()):
+                continue                              # name of a class attribute: t.<key> not demanded
             exp.append(("attr[%s]" % k, ["ok", _rec_model(m[k])] if k in m else ["raises", "KeyError"]))
         for k in cfg["keys"]:
             exp.append(("in[%s]" % k, ["ok", k in m]))
@@ -460,6 +484,8 @@ def _pt_partial(cands, cfg):
         else:
             r = _rec_model(vals[0])
             exp += [("key[%s]" % k, ["ok", r]), ("attr[%s]" % k, ["ok", r]), ("in[%s]" % k, ["ok", True])]
+        if k in cfg.get("noattr", ()):
+            exp = [x for x in exp if x[0] != "attr[%s]" % k]
     return exp
 
 
@@ -476,6 +502,8 @@ def _pt_readout(t, n, keyed, cfg):
             got.append(("pos[%d]" % i, _obs(lambda: _rec(t[i]))))
         got.append(("posend[%d]" % n, _obs(lambda: _rec(t[n]))))
         for k in cfg["keys"]:
+            if k in cfg.get("noattr", ()):
+                continue
             got.append(("attr[%s]" % k, _obs(lambda: _rec(getattr(t, _fk(k))))))
         for k in cfg["keys"]:
             got.append(("in[%s]" % k, _obs(lambda: _fk(k) in t)))
@@ -497,6 +525,8 @@ def _pt_readout(t, n, keyed, cfg):
 def _pt_tags(keyed, hist, cfg):
     """features of the history (input side)"""
     tags = ["keyed" if keyed else "unkeyed"]
+    if cfg.get("noattr"):
+        tags.append("key-names-of-class-attributes")
     live, dead, failed, n = set(), set(), {}, 0       # failed: key -> new keys inserted since the refusal
     if hist[0][0] == "ctor":
         tags.append("ctor-params")
@@ -990,6 +1020,8 @@ def _bfs(part, name, cfg, depth, sh, label=""):
                 if nonempty:
                     sh.nontrivial += 1
                 sh.count("%s:%s" % (pre, op[0]))
+                if cfg and cfg.get("noattr") and op[0] != "read" and op[1] in cfg["noattr"]:
+                    sh.count("%s:%s-key-named-like-class-attribute" % (pre, op[0].rstrip("!")))
                 if bad:
                     sh.fail(bad)
                     continue                         # do not explore beyond the first divergence
@@ -1411,6 +1443,8 @@ def plan(tier, seed):
     shards = [("bfs", "pt", "keyed", tier), ("bfs", "pt", "unkeyed", tier)]
     for i in range(len(PT_EXTRA[tier])):
         shards.append(("bfs", "pt", "keyed", tier, i))
+    for i in range(len(PT_COLLIDE[tier])):
+        shards.append(("bfsc", tier, i))
     for name in RC_CFG:
         shards.append(("bfs", "rc", name, tier))
     for name in ("keyed", "unkeyed"):
@@ -1449,6 +1483,9 @@ def run_shard(desc):
             cfg = PT_EXTRA[tier][desc[4]]
         depth = cfg["depth"] if part == "pt" else RC[tier]["depth"]
         _bfs(part, name, cfg, depth, sh, label="" if len(desc) == 4 else "-x%d" % desc[4])
+    elif kind == "bfsc":
+        cfg = PT_COLLIDE[desc[1]][desc[2]]
+        _bfs("pt", "keyed", cfg, cfg["depth"], sh, label="-names%d" % desc[2])
     elif kind == "seq":
         _, part, name, tier, first = desc
         cfg = PT[tier] if part == "pt" else None
@@ -1527,7 +1564,8 @@ def replay(rec):
     hist = [list(op) for op in c["history"]]
     if part.startswith("table-"):
         keys = c["tier_bounds"]["keys"]
-        cfg = [c for c in (PT["quick"], PT["thorough"], LIN["quick"], LIN["thorough"]) if c["keys"] == keys][0]
+        cfg = [c for c in [PT["quick"], PT["thorough"], LIN["quick"], LIN["thorough"]] + PT_COLLIDE["thorough"]
+               if c["keys"] == keys][0]
         return _e1_run("pt", part[len("table-"):], hist, cfg)[2]
     return _e1_run("rc", part[len("rows-"):], hist, None)[2]
 
@@ -1543,6 +1581,7 @@ def finish(total, tier, seed):
                 "combination:with-equal-values-in-a-list", "pt-keyed:set!", "pt-keyed:append!", "pt-unkeyed:append!",
                 "pt-keyed:read", "pt-unkeyed:read", "pt-keyed:size-family", "pt-unkeyed:size-family",
                 "grid-interleave:2-generators", "grid-interleave:3-generators"]
+        need += ["pt-keyed:%s-key-named-like-class-attribute" % o for o in ("append", "set", "del")]
         need += ["rc-%s:sort" % n for n in RC_CFG] + ["rc-%s:dict" % n for n in RC_CFG]
         need += ["rc-%s:read" % n for n in RC_CFG]
         need += ["rc-%s:dict!" % n for n in RC_CFG if RC_CFG[n]["cols"] is not None]
@@ -1551,12 +1590,16 @@ def finish(total, tier, seed):
             raise HarnessError("vacuous run, no cases of: %s" % miss)
         if total.extra.get("bfs_closed_pt-keyed") != 1:
             raise HarnessError("keyed-table state graph did not reach its fixed point within the depth bound")
+        for i in range(len(PT_COLLIDE[tier])):
+            if total.extra.get("bfs_closed_pt-keyed-names%d" % i) != 1:
+                raise HarnessError("keyed-table state graph (key names run %d) did not reach its fixed point" % i)
     per = {}
     for s in states:
         per[s.split(":")[0]] = per.get(s.split(":")[0], 0) + 1
     return dict(states=len(states), states_per_object=dict(sorted(per.items())),
                 bounds=dict(table=PT[tier], row_collector=dict(RC[tier], configs=sorted(RC_CFG), rows=ROWS,
                                                               rows_typed=ROWS_T, rows_numeric=ROWS_N),
+                            table_key_names=PT_COLLIDE[tier],
                             grid=GRID[tier], combination=COMB[tier], size_families=LIN[tier],
                             grid_interleavings=[list(x) for x in MIX[tier]]),
                 caps_hit=[])
@@ -1566,7 +1609,8 @@ MANIFEST = dict(
          "keys, REFUSED assignments (record cannot be built) as fault transitions and every public read-out as a "
          "read operation (reads may have side effects), roots empty and "
          "constructor-filled; un-keyed: 3 records, positional delete, refused append) to the fixed point of the "
-         "state graph (depth bound 6) and on the real RowCollector in 5 configurations (list/array mode, declared, "
+         "state graph (depth bound 6), 7 more keyed runs whose keys are names of class / record attributes (keys, items, "
+         "data, shape, append, _keys, _data, p, q ...: pairs + one ordinary key; t.<key> not demanded for them) and on the real RowCollector in 5 configurations (list/array mode, declared, "
          "typed and dict-defined columns; append list/dict, refused dict rows, read operations, sort by every column asc/desc, rows "
          "with ties) to depth 5, de-duplicated on vars(object); after every transition the complete public read-out "
          "is compared with an insertion-ordered dict / list / list of rows (sort: monotone column, multiset of rows "
